@@ -197,16 +197,20 @@ impl Constraints {
             let random_angle = if from < to {
                 // Direct generation when `from` is less than `to`
                 from + rng.gen_range(0.0..(to - from))
+            } else if from == to {
+                // No constraint on this joint: any angle of the full turn
+                from + rng.gen_range(0.0..(2.0 * PI))
             } else {
-                // Wrap-around case: generate an angle based on two segments
-                let range_length = (2.0 * PI - (from - to)).abs();
-                let segment = rng.gen_range(0.0..range_length);
-
-                // Determine which segment to take (before or after the wrap)
-                if segment < (2.0 * PI - from) {
-                    from + segment // Within the forward wrap
+                // Wrap-around case: move `to` forward by whole turns until it gets ahead of
+                // `from` (the same arc compute_centers describes) and sample that arc.
+                let mut end = to;
+                while end < from {
+                    end += 2.0 * PI;
+                }
+                if end > from {
+                    from + rng.gen_range(0.0..(end - from))
                 } else {
-                    to + (segment - (2.0 * PI - from)) // After the wrap
+                    from // arc of zero width
                 }
             };
             random_angle
